@@ -1,6 +1,6 @@
-(* CompileCorrect3.v — C01, closures as values: the "exec" lemmas of the basic code patterns
+(* CompileCorrect4.v — C01, fragment 4 (closures as values, bodies of several expressions; port of CompileCorrect3.v): the "exec" lemmas of the basic code patterns
    (constants, variable references, global stores, if, the operand loop, application of a
-   builtin), restated from CompileCorrect2.v over the values [rval4] of Closures3.v.      *)
+   builtin), restated from CompileCorrect2.v over the values [rval4] of Closures4.v.      *)
 From Coq Require Import String Lia FMapPositive.
 From MW Require Import Model.Base Model.F64 Model.Num Model.Datum Model.TransformDef Model.Transform
   Model.VmTypes Model.Heap Model.Gc Model.VmBase Model.Compile Model.Vm
